@@ -55,6 +55,9 @@ func (t *ty) sexp() sx.Sexp {
 		}
 		return sx.T("enum", xs...)
 	case "arr", "opt", "var":
+		if t.tag == "arr" && t.lo != nil {
+			return sx.T("arrn", t.kids[0].sexp(), bs(t.lo), bs(t.hi))
+		}
 		xs := make([]sx.Sexp, len(t.kids))
 		for i, k := range t.kids {
 			xs[i] = k.sexp()
@@ -268,12 +271,12 @@ func (t *table) randDispatch(r *rand.Rand, related *disp) *disp {
 		d.ops = append([]bop{}, related.ops...)
 		if len(d.ops) > 0 {
 			k := r.Intn(len(d.ops))
-			switch r.Intn(3) {
-			case 0:
+			switch r.Intn(6) {
+			case 0, 1, 2:
 				if d.ops[k].t != nil {
 					d.ops[k] = bop{kind: d.ops[k].kind, t: t.pickType(r)}
 				}
-			case 1:
+			case 3, 4:
 				d.ops = append(d.ops[:k:k], d.ops[k+1:]...)
 			default:
 				if d.ops[k].t != nil && d.ops[k].kind != "ret" {
@@ -308,7 +311,7 @@ func (t *table) randDispatch(r *rand.Rand, related *disp) *disp {
 	case 1:
 		d.ops = append(d.ops, bop{kind: "reqrep", t: t.pickType(r)})
 	}
-	if r.Intn(12) == 0 && len(d.ops) > 0 {
+	if r.Intn(25) == 0 && len(d.ops) > 0 {
 		// ill-formed on purpose: shuffle the parameter calls
 		r.Shuffle(len(d.ops), func(i, j int) { d.ops[i], d.ops[j] = d.ops[j], d.ops[i] })
 	}
@@ -326,12 +329,12 @@ func (t *table) randDispatch(r *rand.Rand, related *disp) *disp {
 			k = r.Intn(len(d.ops) + 1) // the block call may come anywhere among the builder calls
 		}
 		d.ops = append(d.ops[:k:k], append([]bop{o}, d.ops[k:]...)...)
-		d.fn2 = r.Intn(10) != 0
-		if r.Intn(20) == 0 {
+		d.fn2 = r.Intn(30) != 0
+		if r.Intn(40) == 0 {
 			d.ops = append(d.ops, bop{kind: []string{"blk", "optblk"}[r.Intn(2)], bt: randBT(r)})
 		}
 	} else {
-		d.fn2 = r.Intn(25) == 0
+		d.fn2 = r.Intn(60) == 0
 	}
 	if r.Intn(30) == 0 {
 		d.ops = append(d.ops, bop{kind: "ret", t: t.pickType(r)})
@@ -657,7 +660,143 @@ func gen(g *core.G) {
 		args, blk := randTable(r).randArgs(r)
 		g.Emit(callLine(t, args, blk))
 	}
+	genNewM(g)
 	genNew(g)
+}
+
+// ---- newm: the modelled constructors ---------------------------------------------------------------------
+
+var newmRecv = []*ty{tInt, tInt05, {tag: "int", lo: i64(10), hi: i64(20)}, tIntPos, tBool,
+	{tag: "arr", kids: []*ty{tAny}}, tArrInt, {tag: "arr", kids: []*ty{tInt}, lo: i64(1), hi: nil}, {tag: "arr", kids: []*ty{tStr}, lo: i64(2), hi: i64(3)},
+	{tag: "arr", kids: []*ty{tArrInt}, lo: i64(1), hi: i64(1)}, {tag: "arr", kids: []*ty{tStr13}},
+	tOptI05, tVarIS, tEnum, tAny, tUndef}
+
+func sv(s string) sx.Sexp      { return sx.T("s", sx.Str(s)) }
+func iv(n int64) sx.Sexp       { return sx.T("i", sx.Int(n)) }
+func bv(b bool) sx.Sexp        { return sx.T("b", sx.Bool(b)) }
+func av(xs ...sx.Sexp) sx.Sexp { return sx.T("a", xs...) }
+
+var numStrs = []string{"0", "7", "-7", "+7", "15", "017", "0x1F", "0X1f", "0b11", "101", "ff", "- 7", "+\t3", " 5", "5 ", "", "-", "1_0", "00", "08", "9223372036854775807",
+	"9223372036854775808", "-9223372036854775808", "-9223372036854775809", "12a", "3.5", "1e3", "٣"}
+var boolStrs = []string{"true", "false", "yes", "no", "y", "n", "TRUE", "No", "N", "maybe", "", "t", "Yes "}
+
+// witness argument lists of the three modelled constructors
+func newmWitness(r *rand.Rand) ([]sx.Sexp, string) {
+	k := r.Intn(12)
+	kind := "any"
+	switch {
+	case k <= 3 || k == 10:
+		kind = "int"
+	case k <= 6:
+		kind = "bool"
+	case k <= 9:
+		kind = "arr"
+	}
+	return newmWitnessOf(r, k), kind
+}
+
+func newmWitnessOf(r *rand.Rand, k int) []sx.Sexp {
+	radix := []sx.Sexp{iv(2), iv(8), iv(10), iv(16), iv(10), sx.T("d"), sx.T("d"), iv(3), sv("10")}
+	switch k {
+	case 0, 1, 2:
+		a := []sx.Sexp{sv(numStrs[r.Intn(len(numStrs))])}
+		if r.Intn(2) == 0 {
+			a = append(a, radix[r.Intn(len(radix))])
+			if r.Intn(2) == 0 {
+				a = append(a, bv(r.Intn(2) == 0))
+			}
+		}
+		return a
+	case 3:
+		a := []sx.Sexp{iv(genInts[r.Intn(len(genInts))])}
+		if r.Intn(2) == 0 {
+			a = append(a, radix[r.Intn(len(radix))], bv(r.Intn(3) != 0))
+		}
+		return a
+	case 4:
+		return []sx.Sexp{bv(r.Intn(2) == 0)}
+	case 5, 6:
+		return []sx.Sexp{sv(boolStrs[r.Intn(len(boolStrs))])}
+	case 7, 8:
+		n := r.Intn(4)
+		xs := make([]sx.Sexp, n)
+		for i := range xs {
+			switch r.Intn(4) {
+			case 0:
+				xs[i] = sv(genStrs[r.Intn(len(genStrs))])
+			case 1:
+				xs[i] = av(iv(int64(r.Intn(3))))
+			default:
+				xs[i] = iv(int64(r.Intn(7)))
+			}
+		}
+		a := []sx.Sexp{av(xs...)}
+		if r.Intn(3) == 0 {
+			a = append(a, bv(r.Intn(2) == 0))
+		}
+		return a
+	case 9:
+		return []sx.Sexp{sv(genStrs[r.Intn(len(genStrs))])}
+	case 10:
+		// Init[T] expands a single array argument
+		return []sx.Sexp{av(sv(numStrs[r.Intn(len(numStrs))]), radix[r.Intn(len(radix))])}
+	}
+	n := r.Intn(4)
+	a := make([]sx.Sexp, n)
+	for i := range a {
+		if r.Intn(6) == 0 {
+			a[i] = sx.T("d")
+		} else {
+			a[i] = randValue(r, 1)
+		}
+	}
+	return a
+}
+
+func genNewM(g *core.G) {
+	r := g.Rng
+	emit := func(recv sx.Sexp, args []sx.Sexp) {
+		g.Emit("newm " + recv.String() + " " + sx.T("args", args...).String())
+	}
+	recvs := []sx.Sexp{sx.T("init")}
+	for _, t := range newmRecv {
+		recvs = append(recvs, t.sexp(), sx.T("init", t.sexp()))
+	}
+	// small universe: every receiver x every numeric / boolean string alone, and Integer x string x radix
+	for _, rc := range recvs {
+		emit(rc, nil)
+		for _, s := range numStrs {
+			emit(rc, []sx.Sexp{sv(s)})
+		}
+		for _, s := range boolStrs {
+			emit(rc, []sx.Sexp{sv(s)})
+		}
+	}
+	for _, s := range numStrs {
+		for _, rx := range []sx.Sexp{iv(2), iv(8), iv(10), iv(16), sx.T("d")} {
+			emit(tInt.sexp(), []sx.Sexp{sv(s), rx})
+			emit(tInt.sexp(), []sx.Sexp{sv(s), rx, bv(true)})
+		}
+	}
+	byKind := map[string][]sx.Sexp{}
+	for _, t := range newmRecv {
+		k := t.tag
+		if k == "int" || k == "bool" || k == "arr" {
+			byKind[k] = append(byKind[k], t.sexp(), t.sexp(), sx.T("init", t.sexp()))
+		}
+	}
+	for i := 0; i < 6000*g.Scale; i++ {
+		a, kind := newmWitness(r)
+		if r.Intn(5) == 0 && len(a) > 0 {
+			a[r.Intn(len(a))] = randValue(r, 1)
+		}
+		if cands := byKind[kind]; len(cands) > 0 && r.Intn(4) != 0 {
+			// arguments written for the receiver's own constructor
+			emit(cands[r.Intn(len(cands))], a)
+		} else {
+			emit(recvs[r.Intn(len(recvs))], a)
+		}
+	}
 }
 
 var _ = fmt.Sprintf
